@@ -157,6 +157,19 @@ CLAIMS["C10"] = (
     TRUSTED,
     "DESIGN.md §4 C10")
 
+CLAIMS["C08"] = (
+    "static analysis: call-graph reachability of todo!/unimplemented!; MIR abort inventory with forward taint from "
+    "user-written numbers; MIR dominance of the macro recursion guard; THIR shape of the list-parser loops; find/get_rank "
+    "sibling agreement",
+    "Decides only the clause families visible in the code shape: every reachable todo!/unimplemented! is either guarded "
+    "by a recorded structural reason or reported with its trigger (18 sites); every overflow-capable arithmetic / "
+    "unwrap(try_from) fed by a literal, constant or array length in a function reachable from compile is reported (the "
+    "evaluator, lexer and literal printers are clean after the fixes; 8 sites remain as known findings); macro "
+    "recursion is bracketed by the disable flag; list combinators stop on zero progress; stage errors are rendered. "
+    "Does NOT decide the absence of all panics, stack depth or running time.",
+    TRUSTED + "A panic-site ratchet is deliberately not used.",
+    "DESIGN.md §4 C08")
+
 NOT_YET = "rules for this property are not built yet in this round (see DESIGN.md §10 build order); no claim is made"
 
 
